@@ -613,7 +613,12 @@ def c01_17(ctx):
             continue
         txt = ast.unparse(t)
         xtxt = ast.unparse(expand(fn, n.id, t, depth=4))
-        if ("%s.r" % sig) in xtxt or ("%s.s" % sig) in xtxt:
+        xe = expand(fn, n.id, t, depth=4)
+        operands = ([xe.left] + list(xe.comparators)) if isinstance(xe, ast.Compare) else []
+        simple = bool(operands) and all(dotted(o) in ("%s.r" % sig, "%s.s" % sig) or isinstance(o, ast.Constant) or (isinstance(o, ast.Name) and o.id == "N")
+                                        or isinstance(Folder(ctx.repo, mod.name).fold(o), int) for o in operands) \
+            and any(dotted(o) in ("%s.r" % sig, "%s.s" % sig) for o in operands)
+        if simple or _is_r_compare(fn, n.id, t, sig):
             if _is_r_compare(fn, n.id, t, sig):
                 out.append(ctx.ok(spec, "rejects on the final comparison `%s`" % txt, t, mod, key="reject:equation"))
             else:
